@@ -245,7 +245,7 @@ def compare(ctx: Ctx, actual_q: str, ref_name: str, what: str, *, decorated=Fals
 
     def level(full):
         out = []
-        pa_, pr_ = renumber_bv(norm(lc(fa.ret, full))), renumber_bv(norm(from_ref(fr.ret, full)))
+        pa_, pr_ = canon_fn_guards(renumber_bv(norm(lc(fa.ret, full)))), canon_fn_guards(renumber_bv(norm(from_ref(fr.ret, full))))
         a_, r_ = hoist(pa_), hoist(pr_)
         if a_ != r_:
             out.append(("result", a_, r_, pa_, pr_))
@@ -1034,8 +1034,8 @@ def compare_factory(ctx: Ctx, actual_q: str, ref_name: str, what: str, *, soft: 
     ctx.count("kernels")
     if soft:
         _soft_verdict(ctx, prog, key, where, what, pa, pr, ga, gr,
-                      lambda t, is_ref: hoist(renumber_bv(norm(prep(t, idx_a if not is_ref else idx_r, is_ref)))),
-                      lambda t, is_ref: renumber_bv(norm(prep(t, idx_a if not is_ref else idx_r, is_ref))))
+                      lambda t, is_ref: hoist(canon_fn_guards(renumber_bv(norm(prep(t, idx_a if not is_ref else idx_r, is_ref))))),
+                      lambda t, is_ref: canon_fn_guards(renumber_bv(norm(prep(t, idx_a if not is_ref else idx_r, is_ref)))))
         return
     if [l for l, _ in pa] != [l for l, _ in pr]:
         ctx.undecided(key, f"{what}: number of nested functions differs from the reference", where)
@@ -1046,7 +1046,7 @@ def compare_factory(ctx: Ctx, actual_q: str, ref_name: str, what: str, *, soft: 
         """[(label, hoisted a, hoisted r, plain a, plain r)] for the pieces that differ at this inlining level."""
         out = []
         for (label, ta), (_l, tr) in zip(pa, pr, strict=True):
-            pa_, pr_ = renumber_bv(norm(prep(ta, idx_a, False, full))), renumber_bv(norm(prep(tr, idx_r, True, full)))
+            pa_, pr_ = canon_fn_guards(renumber_bv(norm(prep(ta, idx_a, False, full)))), canon_fn_guards(renumber_bv(norm(prep(tr, idx_r, True, full))))
             a_, r_ = hoist(pa_), hoist(pr_)
             if a_ != r_:
                 out.append((label, a_, r_, pa_, pr_))
@@ -1501,6 +1501,72 @@ def guards_equivalent(ga, gb):
         if decide(ga, val) != decide(gb, val):
             return False
     return True
+
+
+def _project_table(table, keep_after, removed):
+    """Table with column `removed` dropped; `keep_after` are the remaining original column indices (sorted)."""
+    cols = sorted([*keep_after, removed])
+    out = {}
+    for bits, val in table.items():
+        out[tuple(b for j, b in zip(cols, bits, strict=True) if j != removed)] = val
+    return out
+
+
+def canon_fn_guards(t):
+    """The guard list of every function value as a decision table over its atomic conditions
+    (which exception class is raised for which truth assignment): two guard lists that decide alike are equal."""
+    import itertools
+
+    if not isinstance(t, tuple):
+        return t
+    t = tuple(canon_fn_guards(x) if isinstance(x, tuple) else x for x in t)
+    if is_term(t) and t[0] == "fn" and len(t) == 5 and t[4] and not (is_term(t[4]) and t[4][0] == "gtable"):
+        g = [(tuple(conds), e) for conds, e in t[4]]
+        atoms = set()
+        for conds, _e in g:
+            for c in conds:
+                _atoms(c, atoms)
+        atoms = sorted(atoms, key=repr)
+        if len(atoms) <= 10:
+            excl = []
+            for i, a in enumerate(atoms):
+                for b in atoms[i + 1:]:
+                    if a[0] == "cmp" and b[0] == "cmp" and a[2] == b[2] and {a[1], b[1]} == {("<",), ("==",)}:
+                        excl.append((a, b))
+            table = {}
+            for bits in itertools.product([False, True], repeat=len(atoms)):
+                val = dict(zip(atoms, bits, strict=True))
+                if any(val[a] and val[b] for a, b in excl):
+                    continue
+                out = None
+                for conds, e in g:
+                    if all(_ev(c, val) for c in conds):
+                        out = e
+                        break
+                table[bits] = out
+            # drop atoms the decision does not depend on (e.g. `<` when only `!=` matters)
+            keep = list(range(len(atoms)))
+            changed = True
+            while changed:
+                changed = False
+                for i in list(keep):
+                    proj = {}
+                    ok = True
+                    for bits, out in table.items():
+                        k = tuple(bits[j] for j in keep if j != i)
+                        if k in proj and proj[k] != out:
+                            ok = False
+                            break
+                        proj[k] = out
+                    if ok:
+                        keep.remove(i)
+                        table = {tuple(b for j, b in zip(sorted(keep + [i]), bits, strict=True) if j != i): out
+                                 for bits, out in table.items()} if False else _project_table(table, keep, i)
+                        changed = True
+                        break
+            rows = tuple(sorted(table.items()))
+            return (*t[:4], ("gtable", tuple(atoms[j] for j in keep), rows))
+    return t
 
 
 def _all_params(node):
